@@ -359,3 +359,47 @@ package cache
 //@ func (*shardedMapOf[V]).deleteExpired
 //@   like (*shardedMap).deleteExpired subst TraitEntry=TraitEntryOf[V]
 //@   replay janitor before=before backend:=shardedof
+
+// ---------------------------------------------------------------------------------------------------
+// sharded_map.go: batch operations (C07), sequential contracts
+// ---------------------------------------------------------------------------------------------------
+
+// ExpireAll: the key set is unchanged and every entry - including never-expiring ones - gets the expiry
+// timestamp read at the start of the call; keys and values are untouched.
+
+//@ func (*shardedMap).ExpireAll
+//@   props C07 C08 C16
+//@   requires ctx != nil && repOK(c)
+//@   ensures [C07.expireall.dom] mapKept(c)
+//@   ensures [C07.expireall.expired] forall h uint64 :: hasH(c, h) ==> ent(c, h).E == now(1)
+//@   ensures [C07.expireall.kv] forall p *TraitEntry :: old(allocated(p)) ==> p.K == old(p.K) && p.V == old(p.V) && p.C == old(p.C)
+//@   ensures [C07.expireall.repok] repOK(c)
+//@   loop 1 (range c.hashedBuckets) invariant [C07.ea.bounds] -1 <= rangeindex && rangeindex <= 127 && startTS == now(1)
+//@   loop 1 invariant [C07.ea.dom] mapKept(c) && keysInShard(c)
+//@   loop 1 invariant [C07.ea.done] forall h uint64 :: h % 128 <= rangeindex && hasH(c, h) ==> ent(c, h).E == startTS
+//@   loop 1 invariant [C07.ea.kv] forall p *TraitEntry :: old(allocated(p)) ==> p.K == old(p.K) && p.V == old(p.V) && p.C == old(p.C)
+//@   loop 2 (range b.data) invariant [C07.ea.in.dom] mapKept(c) && keysInShard(c) && startTS == now(1)
+//@   loop 2 invariant [C07.ea.in.visited] forall h uint64 :: h % 128 == i && visited(h) && hasH(c, h) ==> ent(c, h).E == startTS
+//@   loop 2 invariant [C07.ea.in.done] forall h uint64 :: h % 128 < i && hasH(c, h) ==> ent(c, h).E == startTS
+//@   loop 2 invariant [C07.ea.in.kv] forall p *TraitEntry :: old(allocated(p)) ==> p.K == old(p.K) && p.V == old(p.V) && p.C == old(p.C)
+//@   modifies H|TraitEntry|.E M|map[uint64]*TraitEntry|* G|metric G|cnt|* G|arg|* G|res|* G|clock G|clk G|nclk
+
+// DeleteAll: the cache is empty afterwards.
+
+//@ func (*shardedMap).DeleteAll
+//@   props C07 C08 C16
+//@   requires ctx != nil && repOK(c)
+//@   ensures [C07.deleteall.empty] forall h uint64 :: !hasH(c, h)
+//@   ensures [C07.deleteall.entries] entriesKept()
+//@   loop 1 (range c.hashedBuckets) invariant [C07.da.bounds] -1 <= rangeindex && rangeindex <= 127
+//@   loop 1 invariant [C07.da.done] forall h uint64 :: h % 128 <= rangeindex ==> !hasH(c, h)
+//@   loop 1 invariant [C07.da.shard] keysInShard(c)
+//@   loop 2 (range c.hashedBuckets[i].data) invariant [C07.da.in.visited] forall h uint64 :: visited(h) ==> !has(c.hashedBuckets[i].data, h)
+//@   loop 2 invariant [C07.da.in.done] forall h uint64 :: h % 128 < i ==> !hasH(c, h)
+//@   loop 2 invariant [C07.da.in.shard] keysInShard(c)
+//@   modifies M|map[uint64]*TraitEntry|* G|metric G|cnt|* G|arg|* G|res|* G|clock G|clk G|nclk
+
+//@ func (*shardedMapOf[V]).ExpireAll
+//@   like (*shardedMap).ExpireAll subst TraitEntry=TraitEntryOf[V]
+//@ func (*shardedMapOf[V]).DeleteAll
+//@   like (*shardedMap).DeleteAll subst TraitEntry=TraitEntryOf[V]
